@@ -244,10 +244,12 @@ add("s_no_normal_packets", SIM, SK, ["C15"], cap_s=600, mem_gb=16, group="s_no_n
 add("s_push_aggregate_delay", SIM, SK, ["C19"], cap_s=900, mem_gb=16, group="s_push_aggregate_delay",
     encodes=["NetworkBottleneck::push_aggregate_delay", "NetworkBottleneck::peek_aggregate_delay"],
     bounds="any network delay and blocked duration up to one hour, either side, any instant")
-add("s_pick_next_blocked", SIM, SK, ["C16", "C15", "C19"], tier="thorough", cap_s=2400, mem_gb=20, group="s_pick_next_blocked", owner="C19",
-    encodes=["pick_next", "queue_peek::peek_queue", "queue_peek::peek_queue_earliest_side", "peek_blocked_exp", "SimQueue::peek_blocking / pop"],
-    bounds="one side blocked until any instant up to 1000 s ahead (bypassable or not), one TunnelSent packet (normal or padding, "
-           "bypass flag any) queued on that side at any instant up to 1000 s ahead, no machines, no pending timers")
+for side in ("client", "server"):
+    add("s_pick_next_blocked_" + side, SIM, SK, ["C16", "C15", "C19"], tier="quick", cap_s=2400, mem_gb=24,
+        group="s_pick_next_blocked_" + side, owner="C19",
+        encodes=["pick_next", "queue_peek::peek_queue", "queue_peek::peek_queue_earliest_side", "peek_blocked_exp", "SimQueue::peek_blocking / pop"],
+        bounds="the %s blocked until 0..=1000 s ahead (both sides' bypass flags arbitrary), one TunnelSent packet (normal or "
+               "padding, bypass flag any) queued on that side 0..=1000 s ahead, no machines, no pending timers" % side)
 
 
 # C05 (actions are exactly what the documented semantics prescribe) is broken by ANY semantic deviation
